@@ -15,14 +15,15 @@ CHAIN_FRAME = [
     ("ETA", "in_chain(self, o)"),
     ("$refused", "in_chain(self, o)"),
     ("$ncalls", "o == inner(self)"),
-    ("$list", "field(o, '$kind', 'int') == 9 and in_chain(self, dur_owner(o))"),
+    ("$clock", "o == None"),
+    ("$list<fl>", "field(o, '$kind', 'int') == 9 and in_chain(self, dur_owner(o))"),
 ]
 
 # the part of the frame below an object (what a forwarding wrapper's super().evaluate may touch)
 def frame_of(own_fields):
     out = []
     for f, c in CHAIN_FRAME:
-        if f in own_fields or f in ("$ncalls", "$list"):
+        if f in own_fields or f in ("$ncalls", "$list<fl>", "$clock"):
             out.append((f, c))
         else:
             out.append((f, "(" + c + ") and o != self"))
@@ -31,9 +32,9 @@ def frame_of(own_fields):
 
 # ---- the user's objective (external) ----------------------------------------------------------
 fn("ext.objective.__call__", params={"genome": "g"}, returns="fl",
-   modifies=[("$ncalls", "o == self")],
+   modifies=[("$ncalls", "o == self"), ("$clock", "o == None")],
    ensures=[cl("value", "result == F(self, genome)"),
-            cl("counted", "ncalls(self) == old(ncalls(self)) + 1"),
+            cl("counted", "ncalls(self) == old(ncalls(self)) + 1 and clock() == old(clock()) + 1"),
             cl("is_number", "not is_nan(result) and not is_none(result)")],
    trusted=True, note="the objective: deterministic, total, never NaN; ghost ncalls counts its invocations")
 
@@ -43,6 +44,7 @@ fn("pyhms.core.problem.Problem.evaluate", abstract=True, params={"genome": "g"},
    modifies=CHAIN_FRAME,
    ensures=[cl("transparent", "Transparent(self, genome, result, old(ncalls(inner(self))), ncalls(inner(self)))",
                tags="C16 C02 C03"),
+            cl("clock_counts_invocations", "clock() - old(clock()) == ncalls(inner(self)) - old(ncalls(inner(self)))", tags="C03"),
             cl("counters_monotone", "forall(lambda o: imp(in_chain(self, o) and instance_of(o, 'EvalCountingProblem'), "
                "cast(o, 'ref:EvalCountingProblem')._n_evals >= old(cast(o, 'ref:EvalCountingProblem')._n_evals)), o='ref:Problem')")])
 
